@@ -20,7 +20,7 @@ Your job: produce TWO different, realistic changes to the repository's non-test 
   (1) still compiles (`go build ./...` for the touched packages, with the env from the README; also `go vet` is not required),
   (2) keeps the repository's pinned test suite passing for every package it touches (see the README for which packages are in the pinned suite and how to run them; run them),
   (3) BREAKS the property above — in a way that needs something specific to manifest: a particular interleaving or message order, a crash or fault at a particular point, a multi-step sequence of operations, an unusual input or boundary value, or two cooperating sites that each look fine alone. Not a change that ordinary use would expose at once (no "always return true"), and not a change to test files, build tags, or logging only. Think of the kind of regression a plausible refactoring, optimisation or "simplification" by a maintainer could introduce: an off-by-one in a bound, a dropped guard on one rarely taken branch, a cache keyed too loosely, a lock dropped around one access, a check moved after the point it protects, a comparison that is wrong only for equal values, a missing undo entry, a flush skipped on one path, etc. The two changes should hit different mechanisms.
-  (4) comes with a DEMONSTRATION: a Go test file (or small program) that you add in the worktree, which FAILS (or prints a clear violation) with your change and PASSES on the unmodified code. Verify both yourself (use `git stash` / a second checkout for the unmodified run). The demonstration may use unexported identifiers (same-package test) and may need the stand-in described in the README.
+  (4) comes with a DEMONSTRATION: a Go test file (or small program) that you add in the worktree, which FAILS (or prints a clear violation) with your change and PASSES on the unmodified code. Verify both yourself. NEVER use `git stash` (the stash list is shared by all worktrees of /repo and other agents work concurrently): for the unmodified run do `git diff > /tmp/mine.diff; git apply -R /tmp/mine.diff; <run>; git apply /tmp/mine.diff`. The demonstration may use unexported identifiers (same-package test) and may need the stand-in described in the README.
 
 Deliverables for each change X in {{a,b}}, written to /tmp/mut-out/{name}X/ (create it):
   - patch.diff  : `git diff` of the source change only (no test/demonstration files, no xcshimgo/)
